@@ -256,7 +256,7 @@ func c18Worker(w *W) {
 		n := int(w.Spec.N)
 		for i := 0; i < n; i++ {
 			var s []byte
-			switch r.IntN(4) {
+			switch r.IntN(5) {
 			case 0: // raw bytes
 				s = make([]byte, r.IntN(45))
 				for k := range s {
@@ -274,6 +274,25 @@ func c18Worker(w *W) {
 						s[k] = "abcxyz0189"[r.IntN(10)]
 					}
 				}
+			case 2: // valid UTF-8 letters and digits outside ASCII: not in the documented language
+				uni := []string{"é", "ß", "ñ", "λ", "я", "ā", "٣", "５", "ǆ", "ｚ"}
+				var sb strings.Builder
+				if r.IntN(2) == 0 {
+					sb.WriteByte('_')
+				}
+				for j := 0; j <= r.IntN(3); j++ {
+					if j > 0 {
+						sb.WriteByte('_')
+					}
+					for x := 0; x <= r.IntN(5); x++ {
+						if r.IntN(3) == 0 {
+							sb.WriteString(uni[r.IntN(len(uni))])
+						} else {
+							sb.WriteByte("abcxyz019"[r.IntN(9)])
+						}
+					}
+				}
+				s = []byte(sb.String())
 			default: // structurally generated then mutated
 				k := 1 + r.IntN(5)
 				var sb strings.Builder
